@@ -554,8 +554,10 @@ func (p *c09) Run(c *verifsim.Chooser, st *Stats, render bool) *Outcome {
 		}
 		return o
 	}
-	if !fired && tw.ticks < 0 {
+	if (!fired || !r.Failed) && tw.ticks < 0 {
 		// the run ended by itself later than the twin was allowed to run
+		// (also when the cancellation was noticed so late - within the bound -
+		// that the script had reached its natural end before)
 		tw = p.twin(text, opt, names, ctx.Clock+600)
 	}
 	same := sameOutcome(r, tw, useRun, h.Trace, vars)
